@@ -21,7 +21,8 @@
 //!   value has "_deleted") => NO object with _id x anywhere in read(None);
 //!   otherwise, if the root's value references x, the object x in read(None) == get_value(x, Some(L)) + _id (absent if
 //!   the root does not reference x); everything else in read(None) unchanged; L == current winner => read(None)
-//!   unchanged altogether.  Then commit: Ok(Some), read unchanged; reopen: same read, x not in conflict; B melds A +
+//!   unchanged altogether.  Then commit: Ok(Some), read unchanged; reopen: same read, x not in conflict, same in_conflict() /
+//!   winner / get_conflicting of every object as the committing replica; B melds A +
 //!   refresh: B.read == A.read, x not in conflict on B; A melds B + refresh: A.read unchanged, x not in conflict
 //!   again; C melds A + refresh: C.read == A.read, x not in conflict.
 //! Situations without a conflict on x (choose=none): x is not reported in conflict and resolve_as(x, winner) is Err
@@ -284,6 +285,19 @@ fn resolve_case(edits: &[&str], on_b: bool, choice: usize) -> Result<Vec<String>
             }
             if in_conflict(&f, "x")? {
                 bad.push("x is in conflict on the reopened replica".into());
+            }
+            // the whole conflict picture: conflict set, winner and conflicting revisions of EVERY object
+            let picture = |m: &Melda| -> Value {
+                let objs = orch::g(|| m.get_all_objects()).unwrap_or_default();
+                let per: Vec<Value> = objs
+                    .iter()
+                    .map(|o| json!({"object": o, "winner": orch::res(orch::g(|| m.get_winner(o))), "conflicting": orch::res(orch::g(|| m.get_conflicting(o).map(|s| s.into_iter().collect::<Vec<String>>())))}))
+                    .collect();
+                json!({"in_conflict": orch::g(|| m.in_conflict()).unwrap_or_default().into_iter().collect::<Vec<String>>(), "objects": per})
+            };
+            let (pr, pf) = (picture(&r), picture(&f));
+            if pr != pf {
+                bad.push(format!("conflict picture after the committed resolution: reopened replica {} but the committing replica {}", pf, pr));
             }
         }
     }
